@@ -10,7 +10,7 @@
 #include "mcx.h"
 #include <stdbool.h>
 
-#define W_MAXVAR 4
+#define W_MAXVAR 20
 #define W_MAXGRP 4
 #define W_MAXEV 8
 #define W_QMAX 12            /* pending-event list of the event specification */
@@ -119,6 +119,8 @@ struct wcfg {
         int merge_doomed;      /* forget the bytes of lines that are certainly answered ERROR (state merging) */
         int wo_fill;           /* fill byte for write-only storage at init (C08 pairing) */
         int var_init;          /* initial value pattern selector for variables */
+        int stale_usize;       /* shared layout: unsolicited_buf stays NULL but unsolicited_buf_size is left at this value (cat.h: the pointer decides) */
+        int alias_group;       /* 1: the command array of group 0 is registered a second time, as a last, disabled group */
         int refusal_probe;     /* 1: whenever a refusal-only cat_service call changed parser state, follow the all-refusing continuation (side exploration) */
         int str_full;          /* string variables start with all data_size bytes non-zero (no terminator inside the storage) */
 };
